@@ -23,6 +23,11 @@ ASSUMPTIONS = [
 SAT0, SIG0, CELL0 = 73, 137, 169
 
 
+def prn(cons, sat_id):
+    lab = pins.prn_label(cons, sat_id)
+    return pins.na_marker() if lab == pins.NA else lab
+
+
 def ref_masks(payload):
     total = len(payload) * 8
     v = int.from_bytes(payload, "big")
@@ -72,24 +77,24 @@ def check_msm(ident, payload, m, lm, what="msm"):
             raise Fail(f"{what}-count-{name}", f"{ident}: {name} = {got!r}, mask has {want} set bits; payload {payload.hex()[:100]}")
     for i, s in enumerate(sats, 1):
         got = getattr(m, f"PRN_{i:02d}", None)
-        want = pins.prn_label(cons, s)
+        want = prn(cons, s)
         if got != want:
             raise Fail(f"{what}-PRN-{cons}", f"{ident}: PRN_{i:02d} = {got!r}, the {i}-th set bit is satellite ID {s} -> {want!r}")
     if hasattr(m, f"PRN_{len(sats) + 1:02d}"):
         raise Fail(f"{what}-PRN-extra", f"{ident}: more PRN entries than satellites")
     for k, (s, g) in enumerate(cells, 1):
         gp = getattr(m, f"CELLPRN_{k:02d}", None)
-        wp = pins.prn_label(cons, s)
+        wp = prn(cons, s)
         if gp != wp:
             raise Fail(f"{what}-CELLPRN", f"{ident}: CELLPRN_{k:02d} = {gp!r}, cell {k} is satellite ID {s} -> {wp!r} (cells are satellite-major)")
         gs = getattr(m, f"CELLSIG_{k:02d}", None)
         code = pins.RINEX[cons].get(g)
         if code is None:
-            if gs != pins.NA:
-                raise Fail(f"{what}-CELLSIG-undefined-id", f"{ident} labelmsm={lm}: CELLSIG_{k:02d} = {gs!r} for signal ID {g}, which RTCM 10403.3 does not define for {cons}; expected {pins.NA!r}")
+            if gs != pins.na_marker():
+                raise Fail(f"{what}-CELLSIG-undefined-id", f"{ident} labelmsm={lm}: CELLSIG_{k:02d} = {gs!r} for signal ID {g}, which RTCM 10403.3 does not define for {cons}; expected {pins.na_marker()!r}")
         elif lm == 2:
             want = probe_label(ident, g, 2)
-            if not isinstance(gs, str) or not gs or gs == pins.NA or gs != want:
+            if not isinstance(gs, str) or not gs or gs == pins.na_marker() or gs != want:
                 raise Fail(f"{what}-CELLSIG-band", f"{ident} labelmsm=2: CELLSIG_{k:02d} = {gs!r} for signal ID {g}; the same ID is labelled {want!r} in a single-signal message")
         else:
             if gs != code:
@@ -112,7 +117,7 @@ def classes(ident, sats, sigs, cells):
         cls.append("sat-id-64")
     if 32 in sigs:
         cls.append("sig-id-32")
-    odd = any(pins.prn_label(cons, s) == pins.NA for s in sats) or any(g not in pins.RINEX[cons] for g in sigs)
+    odd = any(prn(cons, s) == pins.na_marker() for s in sats) or any(g not in pins.RINEX[cons] for g in sigs)
     if odd:
         cls.append("reserved-or-out-of-range-id")
     if any(g not in pins.RINEX[cons] for _, g in cells):
